@@ -31,8 +31,9 @@ import (
 // constituent errors (and flattened, in the case of wrapped errors),
 // are an *erc.Stack object, which can be introspected as needed.
 type Collector struct {
-	mu    sync.Mutex
-	stack ers.Stack
+	mu       sync.Mutex
+	stack    ers.Stack
+	resolved *ers.Stack
 }
 
 // New constructs an empty Collector. Collectors can be used without
@@ -48,6 +49,7 @@ func (ec *Collector) Add(err error) {
 		return
 	}
 	defer with(lock(&ec.mu))
+	ec.resolved = nil
 	ec.stack.Push(err)
 }
 
@@ -89,7 +91,14 @@ func (ec *Collector) Resolve() error {
 		return nil
 	}
 
-	return &ec.stack
+	// the head of the stack is modified by Add: return a copy
+	// (the rest of the list is immutable,) which is reused
+	// until the next error is added.
+	if ec.resolved == nil {
+		out := ec.stack
+		ec.resolved = &out
+	}
+	return ec.resolved
 }
 
 // HasErrors returns true if there are any underlying errors, and
